@@ -84,6 +84,7 @@ def ref_client(seat, team, scenario, net, log, fault=None, state=None, sock=None
         c.send(fmt.action('Connecting ') + f'"{team}"' +
                fmt.action(f' as {me} using protocol version {scenario.get("version", 18)}'))
         c.recv()                                             # "<Seat> <team> seated"
+        state['seated'] = True
         c.send(fmt.ready(f'{me} ready for teams'))
         c.recv()                                             # Teams line
         c.send(fmt.ready(f'{me} ready to start'))
@@ -227,18 +228,56 @@ def run_session(scenario, schedule, clients=None, fault=None, kernel_hook=None, 
                                fault=fault if (fault and fault.get('seat') == seat) else None,
                                state=res.client_state[seat])
 
-            def wrapped(seat=seat, fn=fn):
+            last = seat == list(scenario.get('arrival', [0, 1, 2, 3]))[-1]
+
+            def wrapped(seat=seat, fn=fn, last=last):
                 try:
                     # a client is started once the table manager is listening (a refused connection attempt
                     # before that is not part of any property)
                     kernel.point('await-listener', None,
                                  pred=lambda: net.listeners.get(ADDR) is not None and net.listeners[ADDR].listening)
+                    if last and scenario.get('intruders'):
+                        kernel.point('await-intruders', None, pred=lambda: res.intruders_done())
                     fn()
                 except Kill:
                     raise
                 except BaseException as e:  # noqa
                     res.client_exc[seat] = e
             kernel.spawn(wrapped, f'client-{A.SEATS[seat]}', required=clients_required)
+        # inadmissible connection attempts during admission (wrong version / seat already taken / other team than the
+        # seated partner): each connects once the seat it refers to is seated, and the last conforming client waits
+        # until all of them have their answer - so the accept loop is still running for every one of them
+        res.intruder_logs = []
+        pending = []
+        for n_i, it in enumerate(scenario.get('intruders') or []):
+            log_i = []
+            res.intruder_logs.append(log_i)
+            flag = {'done': False}
+            pending.append(flag)
+
+            def intruder(it=it, log_i=log_i, flag=flag):
+                try:
+                    kernel.point('await-listener', None,
+                                 pred=lambda: net.listeners.get(ADDR) is not None and net.listeners[ADDR].listening)
+                    if it.get('after') is not None:
+                        kernel.point('await-seated', None, pred=lambda: res.client_state[it['after']].get('seated'))
+                    sock = O.SimSocket(net)
+                    sock.connect(ADDR)
+                    c = LineConn(sock, log_i)
+                    try:
+                        c.send(f'Connecting "{it["team"]}" as {PR.FORMAL[it["seat"]]} using protocol version {it["version"]}')
+                        for _ in range(5):
+                            c.recv()
+                    except ClientFailure:
+                        pass
+                    finally:
+                        sock.close()
+                except Kill:
+                    raise
+                finally:
+                    flag['done'] = True
+            kernel.spawn(intruder, f'intruder-{n_i}', required=False)
+        res.intruders_done = lambda: all(f['done'] for f in pending)
         res.outcome = kernel.run()
     finally:
         inst.uninstall()
